@@ -33,6 +33,9 @@ type vfSerCase struct {
 	// the reader handed to ReadFrom returns at most Chunk bytes per Read call (0: whatever is asked
 	// for): io.Reader allows short reads, and segments are read through gzip, which produces them
 	Chunk int `json:"reader_chunk,omitempty"`
+	// after the history, up to three REMOVED ids are added again with other content (update = remove
+	// + add): the state that is written then holds re-used ids (tombstone and live entry of one id)
+	ReAdd bool `json:"re_add,omitempty"`
 }
 
 // vfChunkReader returns at most n bytes per Read and offers nothing but Read.
@@ -59,6 +62,7 @@ func vfSerGen(rt *rapid.T, kinds []string) vfSerCase {
 	c := vfSerCase{Kind: rapid.SampledFrom(kinds).Draw(rt, "ser_kind")}
 	c.RemoveAll = rapid.IntRange(0, 9).Draw(rt, "remove_all") == 0
 	c.Chunk = rapid.SampledFrom([]int{0, 0, 1, 2, 3, 5, 7, 13, 64}).Draw(rt, "reader_chunk")
+	c.ReAdd = rapid.IntRange(0, 3).Draw(rt, "re_add_removed_ids") == 0
 	switch c.Kind {
 	case "bm25":
 		t := vfC03Gen(rt)
@@ -70,10 +74,14 @@ func vfSerGen(rt *rapid.T, kinds []string) vfSerCase {
 		c.Meta, c.ContMeta = &m, cont.Ops
 	case "hybrid":
 		h := vfC05Gen(rt)
-		h.VecKind = rapid.SampledFrom([]string{"flat", "flat", "ivf", "hnsw"}).Draw(rt, "hyb_vec_kind")
+		h.VecKind = rapid.SampledFrom([]string{"flat", "flat", "ivf", "hnsw", "pq", "ivfpq"}).Draw(rt, "hyb_vec_kind")
 		if h.VecKind == "ivf" && len(h.Train) == 0 {
 			g := vfNewVecGen(rt, h.Dim)
 			h.Train = vfGenTrainingSet(rt, g, 3, 12, DistanceKind(h.Metric) == Cosine)
+		}
+		if h.VecKind == "pq" || h.VecKind == "ivfpq" {
+			g := vfNewVecGen(rt, h.Dim)
+			h.Train = vfGenTrainingSet(rt, g, 24, 30, DistanceKind(h.Metric) == Cosine)
 		}
 		c.Hyb = &h
 		// continuation: more ops of the same generator (its add refs are local to it)
@@ -219,6 +227,10 @@ func vfSerNew(c *vfSerCase, train bool) (*vfSerState, error) {
 			var err error
 			if h.VecKind == "ivf" && !train {
 				s.hvi, err = NewIVFIndex(h.Dim, 3, DistanceKind(h.Metric))
+			} else if h.VecKind == "pq" && !train {
+				s.hvi, err = NewPQIndex(h.Dim, DistanceKind(h.Metric), 1, 2)
+			} else if h.VecKind == "ivfpq" && !train {
+				s.hvi, err = NewIVFPQIndex(h.Dim, DistanceKind(h.Metric), 2, 1, 2)
 			} else {
 				s.hvi, err = vfNewVectorIndexOfKind(h.VecKind, h.Dim, DistanceKind(h.Metric), tr)
 			}
@@ -370,6 +382,42 @@ func (s *vfSerState) applyHistory() {
 	}
 	if c.RemoveAll {
 		s.removeAll()
+	}
+	if c.ReAdd && !c.RemoveAll {
+		s.reAddSome()
+	}
+}
+
+// reAddSome re-adds up to three removed ids with new content.
+func (s *vfSerState) reAddSome() {
+	ids := vfSortedU32Bool(s.gone)
+	if len(ids) > 3 {
+		ids = ids[:3]
+	}
+	c := s.c
+	for k, id := range ids {
+		var err error
+		switch c.Kind {
+		case "bm25":
+			err = s.bm.Add(id, fmt.Sprintf("readded fox zeta w%d", k))
+		case "metadata":
+			err = s.mi.Add(*NewMetadataNodeWithID(id, map[string]interface{}{"s1": "a", "i1": 7 + k, "b1": true}))
+		case "hybrid":
+			var vec []float32
+			if c.Hyb.HasVec {
+				vec = make([]float32, c.Hyb.Dim)
+				vec[0], vec[len(vec)-1] = 1, float32(k+1)
+			}
+			err = s.hy.AddWithID(id, vec, "readded fox", map[string]interface{}{"i1": 7 + k})
+		default:
+			vec := make([]float32, c.Vec.Dim)
+			vec[0], vec[len(vec)-1] = 1, float32(k+1)
+			err = s.ut.idx.Add(*NewVectorNodeWithID(id, vec))
+		}
+		if err == nil {
+			delete(s.gone, id)
+			s.live[id] = true
+		}
 	}
 }
 
